@@ -627,6 +627,24 @@ def _combos(classes, sep=', ', free_order=False, wrap=('', ''), names_us=True, l
     return [s for s in out if not (s in seen or seen.add(s))]
 
 
+def _orders(classes, sizes=(3, 4, 5)):
+    """every ORDER of 3..5 elements drawn from the classes, the first class (plain positional / bare name) up to twice: e.g.
+    positional, *star, bare-after-star, keyword-after-star, **kw in every arrangement (invalid ones are skipped by the evaluator)"""
+    import itertools
+    n = len(classes)
+    pool = [0] + list(range(n))
+    out = []
+    seen = set()
+    for k in sizes:
+        for idxs in itertools.permutations(range(len(pool)), k):
+            sel = tuple(pool[i] for i in idxs)
+            if sel in seen:
+                continue
+            seen.add(sel)
+            out.append(', '.join(classes[c][1].replace('{n}', 'abcdefghij'[j] + 'y') for j, c in enumerate(sel)))
+    return out
+
+
 def _arguments_shapes():
     """posonly / plain / plain=default / *vararg / kwonly / kwonly=default / **kwarg; a bare `*` is inserted when keyword-only
     parameters come without a vararg"""
@@ -671,8 +689,8 @@ def container_shapes():
     d = {
         'arguments': ('arguments', _arguments_shapes()),
         '_type_params': ('_type_params', _combos([('tv', '{n}'), ('bound', '{n}: int'), ('tvt', '*{n}'), ('ps', '**{n}')], free_order=True)),
-        '_arglikes': ('_arglikes', _combos(al, free_order=True)),
-        'Call': ('Call', _combos(al, free_order=True, wrap=('f(', ')'))),
+        '_arglikes': ('_arglikes', _combos(al, free_order=True) + _orders(al[:4])),
+        'Call': ('Call', _combos(al, free_order=True, wrap=('f(', ')')) + ['f(' + x + ')' for x in _orders(al[:4])]),
         '_aliases': ('_aliases', _combos([('plain', '{n}'), ('dotted', '{n}.b'), ('as', 'm as {n}'), ('dotted_as', 'm.o as {n}')], free_order=True)),
         '_withitems': ('_withitems', _combos([('plain', '{n}'), ('as', 'f(1) as {n}'), ('call', 'f({n})'), ('as_tuple', 'g as ({n}, q)'),
                                               ('as_attr', 'h as {n}.a')])),
@@ -726,3 +744,38 @@ def mb_variant(src):
         if ln < len(lines):
             lines[ln] = lines[ln][:col] + ins + lines[ln][col:]
     return '\n'.join(lines)
+
+
+_BREAK_AFTER = {'+', '-', '*', '/', '//', '%', '@', '|', '&', '^', '<<', '>>', '<', '>', '<=', '>=', '==', '!=', 'and', 'or', 'in', 'is',
+                'if', 'else', ',', 'not', ':=', 'as'}
+
+
+def ml_variant(src):
+    """the same source broken over two physical lines at its first operator OUTSIDE any bracket (after a binary operator /
+    keyword operator / comma, before a `.`): an operand that is only valid where something encloses it.  None if there is no
+    such place, the source is already multi-line, or tokenizing fails."""
+    if '\n' in src or not src.strip():
+        return None
+    try:
+        toks = list(_tok.generate_tokens(io.StringIO(src).readline))
+    except Exception:
+        return None
+    depth = 0
+    seen = False
+    for i, t in enumerate(toks):
+        if t.type in (_tok.NEWLINE, _tok.NL, _tok.ENDMARKER, _tok.INDENT, _tok.DEDENT, _tok.COMMENT):
+            continue
+        if t.type == _tok.OP and t.string in '([{':
+            depth += 1
+        elif t.type == _tok.OP and t.string in ')]}':
+            depth -= 1
+        elif depth == 0 and seen:
+            if t.string == '.' and t.type == _tok.OP:
+                return src[:t.start[1]] + '\n' + src[t.start[1]:]
+            if t.string in _BREAK_AFTER and (t.type == _tok.OP or t.type == _tok.NAME):
+                nxt = next((u for u in toks[i + 1:] if u.type not in (_tok.NEWLINE, _tok.NL, _tok.ENDMARKER, _tok.COMMENT)), None)
+                if nxt is None:
+                    return None         # trailing comma etc.
+                return src[:t.end[1]] + '\n' + src[t.end[1]:].lstrip(' ')
+        seen = True
+    return None
